@@ -356,7 +356,21 @@ func (i *Interpreter) Exec(ctx context.Context, bs match.Bindings, props core.St
 	case *goja.InterruptedError:
 		return nil, vv
 	case map[string]interface{}:
-		result = match.Bindings(vv)
+		// Canonicalize the returned bindings (as emitted
+		// messages are) so that a state is plain JSON data:
+		// an exported value can contain int64s, which the
+		// matcher does not treat like the float64s that the
+		// same state has after it was written out and read
+		// back.
+		y, err := core.Canonicalize(vv)
+		if err != nil {
+			return nil, err
+		}
+		m, is := y.(map[string]interface{})
+		if !is {
+			return nil, fmt.Errorf("%#v (%T) isn't Bindings", y, y)
+		}
+		result = match.Bindings(m)
 	case match.Bindings:
 		result = vv
 	case nil:
